@@ -54,6 +54,19 @@ theorem apply_step (y : Sys) (g : Good y.s) (op : Op) (hp : op.plain = true) (ho
   | rmMet m => simp only [apply]; split; exact rmMet_step y g m ‹_›; exact Step.refl g
   | rmMetD m => simp only [apply]; split; exact rmMetD_step y g m ‹_›; exact Step.refl g
   | removeRxns rs o => simp only [apply]; exact (removeRxns_step o rs y g).1
+  | setRule r rule =>
+    simp only [apply]
+    split
+    · exact Step.refl g
+    · rename_i hr
+      split
+      · exact Step.refl g
+      · rename_i hin
+        have hc : y.ctx = [] := by
+          cases h : y.ctx with
+          | nil => rfl
+          | cons c cs => simp [inCtx, h] at hin
+        exact ⟨setRuleRaw_good g r (by simpa using hr) rule, by simp [hc]⟩
   | removeRxnO r => simp only [apply]; split; exact (removeRxnO_step y g r ‹_›).1; exact Step.refl g
   | imul r k =>
     simp only [apply]
